@@ -277,6 +277,12 @@ func (in *Interp) rtCall(fn *ssa.Function, a []Value) Value {
 	case "Note":
 		p.note(lit(0))
 		return nil
+	case "Setenv":
+		if p.env == nil {
+			p.env = map[string]NF{}
+		}
+		p.env[lit(0)] = p.res(nfOf(a[1]))
+		return nil
 	}
 	in.unsupported("unknown rt function %s", fn.Name())
 	return nil
@@ -343,7 +349,19 @@ func (p *Path) violate(label string, extra []*B) bool {
 	h.mu.Lock()
 	if v, ok := h.viol[key]; ok {
 		v.Count++
+		// a violation found on an over-approximated path (stale bufio view, ...) is only reported if a
+		// native run shows it; whether it shows depends on the inputs, so keep a few more candidates
+		// from other paths
+		wantAlt := v.Over && p.overApprox && len(v.Alts) < 16 && v.Count%7 == 0
 		h.mu.Unlock()
+		if wantAlt {
+			if r, m, _ := p.exactModel(extra); r == Sat {
+				c := p.caseFromModel(&Model{p: p, m: m})
+				h.mu.Lock()
+				v.Alts = append(v.Alts, c)
+				h.mu.Unlock()
+			}
+		}
 		return true
 	}
 	h.mu.Unlock()
